@@ -32,6 +32,21 @@ def render(cases):
         call = "u.f%d(%s)" % (n, ", ".join(arg_expr(k, i + 1) for i, k in enumerate(kinds)))
         zline = None
         line = None
+
+        def put_matching(src, layout):
+            """appends `matching!(src)` in one of three source layouts and returns the line of the invocation
+            (the line of the `matching` token, whatever line the first sub-pattern is on)"""
+            if not src or layout == 0:
+                L.append("        matching!(%s)" % src)
+                return len(L)
+            L.append("        matching!(")
+            at = len(L)
+            if layout == 2:
+                L.append("            // the first sub-pattern starts two lines below the invocation")
+            L.append("            %s" % src)
+            L.append("        )")
+            return at
+        layout = n % 3
         if err == "NoMockImplementation":
             L.append("    let u = Unimock::new(()).no_verify_in_drop();")
         elif err == "WrongOrder":
@@ -39,14 +54,13 @@ def render(cases):
             L.append("        matching!()")
             zline = len(L)
             L.append("    ).returns(9u8), %s.next_call(" % mf)
-            L.append("        matching!(%s)" % pat_src)
+            put_matching(pat_src, layout)
             L.append("    ).returns(1u8))).no_verify_in_drop();")
         elif err == "WrongOrder2":
             L.append("    let u = Unimock::new((%s.next_call(" % mf)
             L.append("        matching!(%s)" % pat_src)
             L.append("    ).returns(1u8), %s.next_call(" % mf)
-            L.append("        matching!(%s)" % pat_src)
-            line = len(L)
+            line = put_matching(pat_src, layout)
             L.append("    ).returns(2u8), M%d::z%d.next_call(matching!()).returns(9u8))).no_verify_in_drop();" % (n, n))
         else:
             head, tail = {
@@ -59,8 +73,7 @@ def render(cases):
                 "NoOutput": ("%s.stub(|each| { each.call(" % mf, "); })"),
             }[err]
             L.append("    let u = Unimock::new(%s" % head)
-            L.append("        matching!(%s)" % pat_src)
-            line = len(L)
+            line = put_matching(pat_src, layout)
             L.append("    %s).no_verify_in_drop();" % tail)
         if err == "WrongOrder2":
             L.append("    let _ = observe(|| %s, |r| r.to_string());" % call)
